@@ -78,15 +78,29 @@ TOUCHED = set()          # Generated files (re)written or confirmed by an extrac
 BASELINE_DIR = os.path.join(VERIF, "gen", "baseline")   # Generated/*.lean of the unchanged tree (refreshed by setup.sh)
 
 
-def restore_baseline():
-    """An extractor did not recognise the changed source: put back the Generated files of the unchanged tree for every file
-    no extractor confirmed in this run.  The model is then the model of the unchanged code and its tie to the changed code is
-    the correspondence check alone.  Returns the list of restored file names."""
+def baseline_owners():
+    """{extractor name: [Generated file names it writes]} recorded by harness/genall.py next to the baseline."""
+    try:
+        with open(os.path.join(BASELINE_DIR, "owners.json")) as f:
+            return json.load(f)
+    except (OSError, ValueError):
+        return {}
+
+
+def restore_baseline(extractors):
+    """An extractor did not recognise the changed source: put back the Generated files of the unchanged tree that THIS extractor
+    writes (owners.json) and that it did not confirm in this run.  The model is then the model of the unchanged code and its tie
+    to the changed code is the correspondence check alone.  Returns the list of restored file names, or None when an extractor's
+    files are not on record (no fallback possible)."""
     out = []
-    if not os.path.isdir(BASELINE_DIR):
-        return out
-    for fn in sorted(os.listdir(BASELINE_DIR)):
-        if fn.endswith(".lean") and os.path.join(GEN_DIR, fn) not in TOUCHED:
+    owners = baseline_owners()
+    names = []
+    for e in extractors:
+        if e not in owners:
+            return None
+        names.extend(owners[e])
+    for fn in sorted(set(names)):
+        if fn.endswith(".lean") and os.path.isfile(os.path.join(BASELINE_DIR, fn)) and os.path.join(GEN_DIR, fn) not in TOUCHED:
             with open(os.path.join(BASELINE_DIR, fn)) as f:
                 text = f.read()
             path = os.path.join(GEN_DIR, fn)
@@ -199,9 +213,9 @@ def lean_audit(modules, theorems, timeout=600):
     res = {}
     text = out + err
     # "'X' depends on axioms: [a, b]" or "'X' does not depend on any axioms"
-    for m in re.finditer(r"'([^']+)' depends on axioms: \[([^\]]*)\]", text, re.S):
+    for m in re.finditer(r"'(\S+)' depends on axioms: \[([^\]]*)\]", text, re.S):
         res[m.group(1)] = [a.strip() for a in m.group(2).replace("\n", " ").split(",") if a.strip()]
-    for m in re.finditer(r"'([^']+)' does not depend on any axioms", text):
+    for m in re.finditer(r"'(\S+)' does not depend on any axioms", text):
         res[m.group(1)] = []
     bad = []
     for t in theorems:
@@ -415,21 +429,23 @@ def run_property(prop, tier, seed, replay=None):
         for g in getattr(mod, "GENERATORS", []):
             gname = "%s.%s" % (g.__module__.split(".")[-1], g.__name__)
             try:
-                gen_report[g.__name__] = g()
+                gen_report[gname] = g()
             except ExtractionError as e:
                 unextracted.append(("extraction:" + gname, str(e)))
             except Exception as e:  # an extractor crashing on changed source is also an extraction failure
                 unextracted.append(("extraction:" + gname, "%s: %s" % (type(e).__name__, e)))
         fallback = None
         if unextracted:
-            if getattr(mod, "EXTRACTION_FALLBACK", True) and os.path.isdir(BASELINE_DIR):
+            restored = restore_baseline([l.split(":", 1)[1] for l, _ in unextracted]) \
+                if getattr(mod, "EXTRACTION_FALLBACK", True) and os.path.isdir(BASELINE_DIR) else None
+            if restored is not None:
                 # The translator recognises the idioms that exist today; a source shape it does not recognise is not by
                 # itself a violation.  Keep the model of the unchanged code (theorems stay proved about it) and let the
                 # second tie - correspondence of that model with the changed code, the property oracle and the larger
                 # search - decide.  Anything they find is reported concretely; if they find nothing the property is shown to
                 # hold through the correspondence tie alone (recorded in the evidence and printed as a NOTE).
                 fallback = {"unrecognised": [{"extractor": l, "detail": d[:600]} for l, d in unextracted],
-                            "restored": restore_baseline()}
+                            "restored": restored}
                 gen_report["translator_fallback"] = fallback
             else:
                 broken.extend(unextracted)
